@@ -320,6 +320,8 @@ PREDICATES = {
     "common_order_differs": H.common_order_differs,
     "common_order_differs_supports_equal": lambda c: H.common_order_differs(c) and not H.supports_differ(c),
     "supports_differ": H.supports_differ,
+    # some position is stored by the left operand only: x/0 there (pyttb writes NaN, the property says signed infinity)
+    "left_only_position_exists": lambda c: bool(set(H._keys(c["a"])) - set(H._keys(c["b"]))),
     "both_empty": lambda c: _na(c) == 0 and _nb(c) == 0,
     "exactly_one_operand_empty": lambda c: (_na(c) == 0) != (_nb(c) == 0),
     # sptensor (op) tensor
@@ -327,6 +329,7 @@ PREDICATES = {
     "sparse_empty": lambda c: _na(c) == 0,
     "sparse_many_dense_zero_under_stored": lambda c: _na(c) >= 2 and H.dense_zero_under_stored(c),
     "sparse_many_both_zero_somewhere": lambda c: _na(c) >= 2 and H.both_zero_somewhere(c),
+    "both_zero_somewhere": H.both_zero_somewhere,
     "dense_exactly_one_zero": lambda c: H.dense_zero_count(c) == 1,
     "ne_dense_float_subs": _ne_dense_float_subs,
     # sptensor (op) scalar
